@@ -126,7 +126,11 @@ def _postProcessPredefinedMatrixPhase(therm: GeneralThermodynamics, mobility: np
     across the diffusion couple
     '''
     alpha_phase = args[0]
-    alpha_idx = therm.phases.index(alpha_phase)
+    #mobility and phaseFracs are ordered by the stable phases at this composition, which is not the phase order of therm
+    phases = list(kwargs.get('phases', therm.phases))
+    if alpha_phase not in phases:
+        return mobility, phaseFracs
+    alpha_idx = phases.index(alpha_phase)
     alpha_mob = mobility[alpha_idx]
     for i in range(mobility.shape[1]):
         mobility[:,i][mobility[:,i] == -1] = alpha_mob[i]
@@ -149,7 +153,9 @@ def _postProcessExcludePhases(therm: GeneralThermodynamics, mobility: np.array, 
     mobility is unknown
     '''
     excluded_phases = args[0]
-    phase_idxs = [therm.phases.index(p) for p in excluded_phases]
+    #mobility and phaseFracs are ordered by the stable phases at this composition, which is not the phase order of therm
+    phases = list(kwargs.get('phases', therm.phases))
+    phase_idxs = [phases.index(p) for p in excluded_phases if p in phases]
     for p in phase_idxs:
         phaseFracs[p] = 0
     return mobility, phaseFracs
@@ -348,11 +354,12 @@ def computeHomogenizationFunction(therm : GeneralThermodynamics, x, T, homogeniz
     chemical_potentials = np.zeros((x.shape[0], len(therm.elements)-1))
     for i in range(len(x)):
         mobility_data = _computeSingleMobility(therm, x[i], T[i], unsortIndices, hashTable)
-        mob = mobility_data.mobility
-        phase_fracs = mobility_data.phase_fractions
+        #Copy since the post process functions modify the arrays, which may be stored in the hash table
+        mob = np.array(mobility_data.mobility)
+        phase_fracs = np.array(mobility_data.phase_fractions)
         chemical_potentials[i,:] = mobility_data.chemical_potentials
 
-        mob, phase_fracs = homogenizationParameters.postProcessFunction(therm, mob, phase_fracs, *homogenizationParameters.postProcessParameters)
+        mob, phase_fracs = homogenizationParameters.postProcessFunction(therm, mob, phase_fracs, *homogenizationParameters.postProcessParameters, phases=mobility_data.phases)
         avg_mob[i] = homogenizationParameters.homogenizationFunction(mob, phase_fracs, labyrinth_factor = homogenizationParameters.labyrinthFactor)
 
     return np.squeeze(avg_mob), np.squeeze(chemical_potentials)
